@@ -220,7 +220,9 @@ invariant of `C01_main_exit0_partial`):
 message whose verdict is an action list, BEFORE `matches_exec` runs and whether or not anything is printed (a real run
 without `-v` prints nothing).  So "the log of the real run" means: the action entries the real run hands to `matches_exec`,
 message by message, rendered as `->` lines; what the real run then DID with them is `C01_main_exit0_partial`.)
-**The dry run predicts the real run.**  Maildir mode, the fault-free plan, rules without discard, no
+**The dry run predicts the real run.**  Maildir mode, the fault-free plan, rules without discard that ask the
+operating system nothing (`Proofs.asksFree`: a `command` condition is run once by the dry run and once by the real run
+and may answer differently; `isdirectory "d"` may change between the runs), no
 message visited twice (`Proofs.exit0_Good`, see `C01_main_exit0_partial`): when both runs end with exit status
 0, the log of the dry run - the `-> destination` lines, in order - EQUALS the log of the real run, and both are
 the reference log.  With `C01_main_exit0_partial` (same hypotheses): the messages that have a line are exactly
@@ -229,6 +231,7 @@ without a line (no match) is bound as before with its content - the real run act
 the dry run lists, as listed. -/
 theorem C06_dry_predicts_real_partial (env : PEnv) (orc : EvalOracles) (confOk : Bool) (conf : List ConfBlock) (files : Files)
     (input : Bytes) (w : World) (hm : env.stdinMode = false) (hsyn : env.syntaxOnly = false) (hdry : env.dryrun = false)
+    (hfree : ∀ b ∈ conf, Proofs.asksFree b.expr = true)
     (hnd : ∀ b ∈ conf, Proofs.WholeNoDiscard env orc b.expr) (hreg : Proofs.WholeReg w files)
     (hgood : Proofs.exit0_Good ⟨env, orc, Proofs.exit0_dirsOf conf, files, w⟩)
     (hreal : (runPlan Plan.none (mainP env orc confOk conf files input) w 0 []).1.1 = 0)
@@ -237,7 +240,7 @@ theorem C06_dry_predicts_real_partial (env : PEnv) (orc : EvalOracles) (confOk :
       (runPlan Plan.none (mainP env orc confOk conf files input) w 0 []).1.2.log ∧
     (runPlan Plan.none (mainP env orc confOk conf files input) w 0 []).1.2.log =
       Proofs.exit0_refDirs ⟨env, orc, Proofs.exit0_dirsOf conf, files, w⟩ (Proofs.exit0_dirsOf conf) :=
-  Proofs.dry_predicts_real env orc confOk conf files input w hm hsyn hdry hnd hreg hgood hreal hdryrun
+  Proofs.dry_predicts_real env orc confOk conf files input w hm hsyn hdry hfree hnd hreg hgood hreal hdryrun
 
 /-- Non-vacuity: the two-message example with `/y` present and `maildir "/m" { match all move "/y" }` - all
 hypotheses hold (both exit statuses evaluated); so the two logs are equal (two lines each). -/
@@ -246,12 +249,13 @@ example : (runPlan Plan.none (mainP { Proofs.exEnv with dryrun := true } Proofs.
     (runPlan Plan.none (mainP Proofs.exEnv Proofs.wholeExOrc true Proofs.exit0_exConf Proofs.wholeExFiles [])
       Proofs.dry_f21World2 0 []).1.2.log :=
   (C06_dry_predicts_real_partial Proofs.exEnv Proofs.wholeExOrc true Proofs.exit0_exConf Proofs.wholeExFiles []
-    Proofs.dry_f21World2 rfl rfl rfl Proofs.exit0_ex_nd Proofs.dry_f21_reg2 Proofs.dry_ex_good Proofs.dry_ex_runs.1
+    Proofs.dry_f21World2 rfl rfl rfl (by decide) Proofs.exit0_ex_nd Proofs.dry_f21_reg2 Proofs.dry_ex_good Proofs.dry_ex_runs.1
     Proofs.dry_ex_runs.2.1).1
 
 /-- **If the real run exits 0, so does the dry run.**  Same configuration, registry, oracles and initial
-world, the fault-free plan, maildir mode, rules without discard, no message visited twice (`exit0_Good`): exit
-status 0 of the real run implies exit status 0 of the `-d` run.
+world, the fault-free plan, maildir mode, rules without discard that ask the operating system nothing (`Proofs.asksFree`, as
+for `C06_dry_predicts_real_partial`: a `command` condition is run once by each of the two runs and need not answer the same
+twice), no message visited twice (`exit0_Good`): exit status 0 of the real run implies exit status 0 of the `-d` run.
 
 Why: without faults the dry run performs a SUBSET of the fallible steps of the real run.  Common to both: the
 configuration is valid; every selected path, path + `/new`, path + `/cur` fits (`Proofs.dryT_real_mainP`: a run
@@ -268,17 +272,19 @@ directory walked later (F21).  Only in a dry run: nothing (`Proofs.dryT_mainP`: 
 fault-free dry run ends without the error flag). -/
 theorem C06_dry_exit_le_real (env : PEnv) (orc : EvalOracles) (confOk : Bool) (conf : List ConfBlock) (files : Files)
     (input : Bytes) (w : World) (hm : env.stdinMode = false) (hsyn : env.syntaxOnly = false) (hdry : env.dryrun = false)
+    (hfree : ∀ b ∈ conf, Proofs.asksFree b.expr = true)
     (hnd : ∀ b ∈ conf, Proofs.WholeNoDiscard env orc b.expr) (hreg : Proofs.WholeReg w files)
     (hgood : Proofs.exit0_Good ⟨env, orc, Proofs.exit0_dirsOf conf, files, w⟩)
     (hreal : (runPlan Plan.none (mainP env orc confOk conf files input) w 0 []).1.1 = 0) :
     (runPlan Plan.none (mainP { env with dryrun := true } orc confOk conf files input) w 0 []).1.1 = 0 :=
-  Proofs.dry_exit_le_real env orc confOk conf files input w hm hsyn hdry hnd hreg hgood hreal
+  Proofs.dry_exit_le_real env orc confOk conf files input w hm hsyn hdry hfree hnd hreg hgood hreal
 
 /-- **The dry run predicts the real run**, without assuming anything about the dry run:
 `C06_dry_predicts_real_partial` minus its hypothesis on the exit status of the dry run.  Exit status 0 of the
 REAL run alone gives exit status 0 of the dry run, equality of the two logs, and both are the reference log. -/
 theorem C06_dry_predicts_real_partial2 (env : PEnv) (orc : EvalOracles) (confOk : Bool) (conf : List ConfBlock) (files : Files)
     (input : Bytes) (w : World) (hm : env.stdinMode = false) (hsyn : env.syntaxOnly = false) (hdry : env.dryrun = false)
+    (hfree : ∀ b ∈ conf, Proofs.asksFree b.expr = true)
     (hnd : ∀ b ∈ conf, Proofs.WholeNoDiscard env orc b.expr) (hreg : Proofs.WholeReg w files)
     (hgood : Proofs.exit0_Good ⟨env, orc, Proofs.exit0_dirsOf conf, files, w⟩)
     (hreal : (runPlan Plan.none (mainP env orc confOk conf files input) w 0 []).1.1 = 0) :
@@ -287,7 +293,7 @@ theorem C06_dry_predicts_real_partial2 (env : PEnv) (orc : EvalOracles) (confOk 
       (runPlan Plan.none (mainP env orc confOk conf files input) w 0 []).1.2.log ∧
     (runPlan Plan.none (mainP env orc confOk conf files input) w 0 []).1.2.log =
       Proofs.exit0_refDirs ⟨env, orc, Proofs.exit0_dirsOf conf, files, w⟩ (Proofs.exit0_dirsOf conf) :=
-  Proofs.dry_predicts_real2 env orc confOk conf files input w hm hsyn hdry hnd hreg hgood hreal
+  Proofs.dry_predicts_real2 env orc confOk conf files input w hm hsyn hdry hfree hnd hreg hgood hreal
 
 /-- Non-vacuity: the two-message example (`maildir "/m" { match all move "/y" }`, `/y` present): every
 hypothesis holds - the exit status of the real run is evaluated, the one of the dry run is NOT used -, so the
@@ -300,7 +306,7 @@ theorem C06_dry_exit_le_real_nonvacuous :
     (runPlan Plan.none (mainP Proofs.exEnv Proofs.wholeExOrc true Proofs.exit0_exConf Proofs.wholeExFiles [])
       Proofs.dry_f21World2 0 []).1.2.log := by
   have h := C06_dry_predicts_real_partial2 Proofs.exEnv Proofs.wholeExOrc true Proofs.exit0_exConf Proofs.wholeExFiles []
-    Proofs.dry_f21World2 rfl rfl rfl Proofs.exit0_ex_nd Proofs.dry_f21_reg2 Proofs.dry_ex_good Proofs.dry_ex_runs.1
+    Proofs.dry_f21World2 rfl rfl rfl (by decide) Proofs.exit0_ex_nd Proofs.dry_f21_reg2 Proofs.dry_ex_good Proofs.dry_ex_runs.1
   exact ⟨h.1, h.2.1⟩
 
 /-- Per file: the lines do not depend on `-d` (any environment, oracle, rules, directory, name, content). -/
